@@ -289,7 +289,8 @@ func (ps *peerScore) score(p peer.ID) float64 {
 		var topicScore float64
 
 		// P1: time in Mesh
-		if tstats.inMesh {
+		// (skipped when disabled by a zero weight: the quantum may then be zero as well)
+		if tstats.inMesh && topicParams.TimeInMeshWeight != 0 {
 			p1 := float64(tstats.meshTime / topicParams.TimeInMeshQuantum)
 			if p1 > topicParams.TimeInMeshCap {
 				p1 = topicParams.TimeInMeshCap
